@@ -59,8 +59,9 @@ def watch_occurrence(program, kind, filter_value=None, active_value=None, user_k
         return f
 
     def call_expr(interp, node, a, k, cfg, out):
+        # the trigger's own expression (the scenario object `fexpr`) asked for its value: recorded as (expression, values)
         lst = cfg.heap.get("$filter", ListV(()))
-        return [(cfg.hset("$filter", ListV(lst.items + (ListV(tuple(a), "tuple"),))), Const(filter_value))]
+        return [(cfg.hset("$filter", ListV(lst.items + (ListV((ObjV("fexpr", "AstEval"), *a), "tuple"),))), Const(filter_value))]
 
     def dtnow(interp, node, a, k, cfg, out):
         return [(cfg, Const(__import__("datetime").datetime(2024, 1, 1, 12, 0, cfg.heap.get("$got", Const(0)).v)))]
@@ -68,7 +69,8 @@ def watch_occurrence(program, kind, filter_value=None, active_value=None, user_k
     summ = {"self.notify_q.get": qget, "asyncio.wait_for": lambda i, n, a, k, c, o: deliver(c, o, True), "dt_now": dtnow,
             "time.monotonic": lambda i, n, a, k, c, o: [(c, Const(100.0))],
             "ident_any_values_changed": rec("$changed", Const(filter_value is None)), "ident_values_changed": rec("$changed", Const(True)),
-            "self._call_expression": call_expr, "self.active_expr.eval": rec("$active", Const(active_value)),
+            "<fexpr>.eval": call_expr, "<aexpr>.eval": rec("$active", Const(active_value)),
+            "<fexpr>.log_exception": lambda i, n, a, k, c, o: [(c, NONE)], "<aexpr>.log_exception": lambda i, n, a, k, c, o: [(c, NONE)],
             "State.notify_var_get": rec("$varget", lambda a: DictV([(Const("$from"), a[1] if len(a) > 1 else NONE)])),
             "State.notify_add": rec("$subscribed", Const(True)), "Event.notify_add": lambda i, n, a, k, c, o: [(c, NONE)],
             "Mqtt.notify_add": lambda i, n, a, k, c, o: [(c, NONE)], "Webhook.notify_add": lambda i, n, a, k, c, o: [(c, NONE)],
